@@ -71,6 +71,20 @@ CHECKS["C17"] = {
     "timeout_thorough": 3000,
 }
 
+CHECKS["C12"] = {
+    "replay_test": "TestC12Replay",
+    "replay_times": 10,
+    "runs": [{"test": "TestC12", "shards_quick": 14, "checks_quick": 80, "shards_thorough": 16, "checks_thorough": 1500}],
+    "rule": "a generated history (10-50 ops, profile restart: gang applications, foreign pods, RM reported allocations, reloads that change quotas, tight quotas, dynamic queues) on a first "
+            "core, cut at an op boundary; a second core is started with the latest accepted configuration and is fed the shim model's knowledge (nodes, force created applications, bound "
+            "allocations incl. placeholders and foreign pods, outstanding asks) in a generated order that respects only node-before-allocation and application-before-ask; then 8-20 further ops; "
+            "non-trivial = at least 3 bound allocations and 1 outstanding ask replayed together with a placeholder or foreign pod, or an application recovered into the recovery queue; "
+            "distinct = hash of first history, replay order and continuation",
+    "assumptions": [],
+    "timeout_quick": 900,
+    "timeout_thorough": 3300,
+}
+
 WORLD_ASSUMPTIONS = COMMON_ASSUMPTIONS + [
     "interleavings are explored at the granularity of one whole RM event handler / one scheduling cycle (finer interleavings belong to C14)",
     "timers are fired deterministically through hooks, only when the real timer is armed; ask age is 0 or 3600 s",
@@ -94,6 +108,8 @@ def world(prop, test, rule, quick=(12, 200), thorough=(16, 4000), **kw):
 
 HIST = "generated histories of SI requests and scheduling cycles (10-80 ops) on a generated valid configuration (queues depth<=3, sparse quotas, limits, templates); distinct = hash of the resolved op trace; "
 
+CHECKS["C12"]["assumptions"] = WORLD_ASSUMPTIONS + ["crash points are op boundaries (the shim has absorbed every message of the last step)",
+                                                  "user resolution through OS / LDAP resolvers is outside the generator: applications always carry their groups"]
 CHECKS["C01"] = world("C01", "TestC01", HIST + "profile tight-nodes; non-trivial = a checked scheduler binding onto a node that already held allocations, or a checked binding in a history "
     "with an earlier capacity change / drain / foreign allocation")
 CHECKS["C02"] = world("C02", "TestC02", HIST + "profile tight-queues; non-trivial = at least one scheduling decision that raised the usage of a queue on a type its maximum defines "
@@ -205,6 +221,8 @@ META = {
     "C16": _world_meta("a before/after relation per reload: rejected = observable state identical; accepted = applications, allocations, reservations, nodes and queue totals identical, "
                        "every configured queue shows the new quota / max applications / properties (reference inheritance model), removed queues drain, draining leaves refuse applications, "
                        "the cleaner removes only empty draining or dynamic queues"),
+    "C12": _world_meta("a differential between two executions: the restarted core must accept everything the shim model replays and show the totals computed from the shim model "
+                       "(and those of the old core when it was quiescent), then satisfy the C01/C02/C03 oracles during a generated continuation"),
     "C09": _world_meta("equality of the application, node and queue views of the reservation relation and exclusivity rules after every step"),
     "C10": _world_meta("the documented application life-cycle table applied to shim messages and state log, plus state/ledger agreement"),
     "C11": _world_meta("the max-applications gate evaluated on the pre-step queue view and counter sanity after every step"),
